@@ -7,6 +7,7 @@ from typing import List, Optional
 
 from ..cfg import CFG, EXIT
 from ..core import AnalysisError, FunctionInfo, Project, dotted, is_const, kwarg, norm, param_names, walk_no_nested
+from .. import sym
 from ..util import assignments, header_calls, mentions, returns_of, stmt_text
 
 ST = "formulaic.utils.structured.Structured"
@@ -57,24 +58,30 @@ def r1(ctx):
         self_name = fn.name
         params = [p for p in param_names(fn) if p not in ("self", "cls", "key")]
         obj = "item" if "item" in params else params[0] if params else "obj"
-        tests = [x for x in ast.walk(fn) if isinstance(x, ast.Call) and dotted(x.func) == "isinstance" and len(x.args) == 2]
-        has_struct = any(norm(t.args[1]) == "Structured" for t in tests)
-        tup_ifs = [x for x in ast.walk(fn) if isinstance(x, ast.If) and any(
-            isinstance(t, ast.Call) and dotted(t.func) == "isinstance" and norm(t.args[1]) == "tuple" for t in ast.walk(x.test))]
         inst = f"{outer.split('.')[-1]}{'.' + inner if inner and f.name == inner else ''}: Structured → recurse, tuple → element-wise recursive, leaf"
-        if not has_struct or not tup_ifs:
-            ctx.fail("C19.R1", inst, f.where, ctx.construct(f, text="case split"),
-                     f"traversal lacks the {'Structured' if not has_struct else 'tuple'} case")
-            continue
-        # the tuple branch must call the traversal itself on each element
-        rec_ok = False
-        for ti in tup_ifs:
-            body_nodes = [x for s in ti.body for x in ast.walk(s)]
-            for c in body_nodes:
+
+        def is_inst(c, typ):
+            return isinstance(c, ast.Call) and dotted(c.func) == "isinstance" and len(c.args) == 2 and norm(c.args[1]) == typ
+
+        def recursive(node):
+            for c in ast.walk(node):
                 if isinstance(c, ast.Call):
                     callee = dotted(c.func) or ""
                     if callee.split(".")[-1] == self_name or callee.endswith("." + self_name.lstrip("_")) or callee == f"self.{self_name}":
-                        rec_ok = True
+                        return True
+            return False
+
+        try:
+            outs = sym.outcomes(fn)
+        except sym.Unmodelled as e:
+            raise AnalysisError(f"C19.R1: traversal {f.qualname} cannot be summarised: {e}")
+        s_outs = [o for o in outs if any(pol and is_inst(c, "Structured") for c, pol in o.conds)]
+        t_outs = [o for o in outs if any(pol and is_inst(c, "tuple") for c, pol in o.conds)]
+        if not s_outs or not t_outs:
+            ctx.fail("C19.R1", inst, f.where, ctx.construct(f, text="case split"),
+                     f"traversal lacks the {'Structured' if not s_outs else 'tuple'} case")
+            continue
+        rec_ok = any(recursive(x) for o in t_outs for x in ([o.value] if o.value is not None else []) + list(o.effects))
         ctx.check(rec_ok, "C19.R1", inst, f.where, ctx.construct(f, text="tuple case"),
                   "the tuple case handles only one level (elements that are themselves tuples are treated as leaves): "
                   "_map/_flatten/_to_dict/_simplify would disagree on what the leaves of a nested tuple are")
@@ -153,25 +160,42 @@ def map_shape_preserving(ctx, rule: str):
     P = ctx.project
     f = P.func(ST + "._map")
     ctx.look(3)
-    r = returns_of(f.node)
-    t = norm(r[0].value) if r else ""
-    ok = re.fullmatch(r"\(as_type or Structured\)\(\*\*\{key: apply_func\(obj, _context \+ \(key,\)\) for \(?key, obj\)? in self\._structure\.items\(\)\}\)", t) is not None
+    c = _single_return(f)
+    ok = sym.pm("(as_type or Structured)(**{VAR_k: apply_func(VAR_o, _context + (VAR_k,)) for VAR_k, VAR_o in self._structure.items()})", c) is not None
     ctx.check(ok, rule, "_map returns a container with exactly the input's keys, in order", f.where, ctx.construct(f, text="_map result"),
-              f"_map returns `{t[:150]}`")
+              f"_map returns `{norm(c)[:150] if c is not None else None}`")
     af = P.functions.get(ST + "._map.<locals>.apply_func")
     if af is None:
         raise AnalysisError(f"{rule}: _map.apply_func vanished")
-    ta = norm(af.node)
-    ok_t = "return tuple((apply_func(o, context + (i,)) for (i, o) in enumerate(obj)))" in ta or "return tuple((apply_func(o, context + (i,)) for i, o in enumerate(obj)))" in ta
+    ps = param_names(af.node)
+    o_, c_ = ps[0], ps[1]
+    try:
+        outs = sym.outcomes(af.node)
+    except sym.Unmodelled as e:
+        raise AnalysisError(f"{rule}: apply_func cannot be summarised: {e}")
+    S, T = f"isinstance({o_}, Structured)", f"isinstance({o_}, tuple)"
+    tup = sym.eval_under(outs, {S: False, T: True, "except_TypeError": False}, kinds=("return",))
+    ok_t = len(tup) == 1 and sym.pm(f"tuple((apply_func(VAR_e, {c_} + (VAR_i,)) for VAR_i, VAR_e in enumerate({o_})))", tup[0][1]) is not None
     ctx.check(ok_t, rule, "_map maps tuples to tuples of the same length, element-wise and recursively", af.where, ctx.construct(af, text="tuple → tuple"),
-              "the tuple case of apply_func must be tuple(apply_func(o, …) for i, o in enumerate(obj))")
-    ok_s = "return obj._map(func, recurse=True, as_type=as_type, _context=context)" in ta and "if recurse and isinstance(obj, Structured):" in ta
+              f"the tuple case of apply_func must be tuple(apply_func(o, {c_} + (i,)) for i, o in enumerate({o_})); found {[norm(v)[:120] for _, v, _e in tup]}")
+    st = sym.eval_under(outs, {S: True, "recurse": True, "except_TypeError": False}, kinds=("return",))
+    ok_s = len(st) == 1 and sym.pm(f"{o_}._map(func, recurse=True, as_type=as_type, _context={c_})", st[0][1]) is not None
     ctx.check(ok_s, rule, "_map recurses into nested structures with the same as_type", af.where, ctx.construct(af, text="nested → same as_type"),
-              "nested Structured values must be mapped with the same function and as_type")
-    calls = [c for c in ast.walk(af.node) if isinstance(c, ast.Call) and isinstance(c.func, ast.Name) and c.func.id == "func"]
-    ok_l = len(calls) == 2 and all(c.args and norm(c.args[0]) == "obj" for c in calls)
+              f"nested Structured values must be mapped with the same function and as_type; found {[norm(v)[:120] for _, v, _e in st]}")
+    leaf = sym.eval_under(outs, {S: False, T: False, "except_TypeError": False}, kinds=("return",))
+    handler = [o for o in outs if any(pol and norm(c) == "except_TypeError" for c, pol in o.conds)]
+    fb = sym.eval_under(handler, {S: False, T: False}, kinds=("return",))
+    ok_l = len(leaf) == 1 and sym.pm(f"func({o_}, {c_})", leaf[0][1]) is not None and len(fb) == 1 and sym.pm(f"func({o_})", fb[0][1]) is not None
     ctx.check(ok_l, rule, "_map applies the function to each leaf exactly once", af.where, ctx.construct(af, text="leaf"),
-              "func(obj, context) with a TypeError fallback to func(obj) expected")
+              f"func({o_}, {c_}) with a TypeError fallback to func({o_}) expected; found {[norm(v)[:80] for _, v, _e in leaf + fb]}")
+
+
+def _single_return(f):
+    try:
+        outs = [o for o in sym.outcomes(f.node) if o.kind == "return"]
+    except sym.Unmodelled:
+        return None
+    return outs[0].value if len(outs) == 1 else None
 
 
 def r2(ctx):
@@ -212,25 +236,36 @@ def r2(ctx):
                           f"`{norm(x)[:80]}` mutates a layer supplied by the caller")
     ctx.floor("C19.R2", n, 6, "stores / mutating calls inspected in LayeredMapping")
     wl = C.methods["with_layers"]
-    inpl = [s for s in walk_no_nested(wl.node) if isinstance(s, ast.If) and norm(s.test) == "inplace"]
-    ok = len(inpl) == 1 and any(isinstance(s, ast.Assign) and norm(s.targets[0]) == "self._layers" and isinstance(s.value, ast.IfExp) for s in inpl[0].body) \
-        and any("named_layers" in norm(s) and isinstance(s, ast.If) for s in inpl[0].body)
+    try:
+        wouts = sym.outcomes(wl.node)
+    except sym.Unmodelled as e:
+        raise AnalysisError(f"C19.R2: with_layers cannot be summarised: {e}")
+
+    def stores(effs, target):
+        return [e for e in effs if isinstance(e, ast.Assign) and norm(e.targets[0]) == target]
+
+    for prepend, want, what in ((True, "[*ANY_L, *self._layers]", "prepended layers take priority"), (False, "[*self._layers, *ANY_L]", "appended layers come last")):
+        res = [r for r in sym.eval_under(wouts, {"inplace": True, "prepend": prepend}, kinds=("return",)) if stores(r[2], "self._layers")]
+        ok = bool(res) and all(norm(r[1]) == "self" and len(stores(r[2], "self._layers")) == 1 and sym.pm(want, stores(r[2], "self._layers")[0].value) is not None
+                               for r in res)
+        ctx.check(ok, "C19.R2", f"with_layers(inplace=True, prepend={prepend}): {what}; the layer list is rebound to a new list", wl.where,
+                  ctx.construct(wl, text=f"inplace prepend={prepend}"),
+                  f"expected `self._layers = {want.replace('ANY_L', 'layers')}` and `return self`; found {[norm(x)[:100] for r in res for x in stores(r[2], 'self._layers')]}")
+    inpl = [o for o in wouts if o.kind == "return" and stores(o.effects, "self._layers")]
+    cached = [o for o in inpl if any(pol and "named_layers" in norm(c) for c, pol in o.conds)]
+    ok = bool(cached) and all(any(isinstance(e, ast.Delete) and "named_layers" in norm(e) for e in o.effects) for o in cached)
     ctx.check(ok, "C19.R2", "with_layers(inplace=True) rebinds the layer list and invalidates the named-layer cache", wl.where,
-              ctx.construct(wl, text="inplace"), "expected `self._layers = [...]` (a new list) and `del self.named_layers` when cached")
-    if inpl:
-        v = [s.value for s in inpl[0].body if isinstance(s, ast.Assign) and norm(s.targets[0]) == "self._layers"]
-        ok = bool(v) and isinstance(v[0], ast.IfExp) and norm(v[0].test) == "prepend" and norm(v[0].body) == "[*layers, *self._layers]" and norm(v[0].orelse) == "[*self._layers, *layers]"
-        ctx.check(ok, "C19.R2", "prepended layers take priority, appended ones do not", wl.where, ctx.construct(wl, text="prepend order"),
-                  f"layer list is `{norm(v[0]) if v else None}`")
-    rets = [r for r in returns_of(wl.node)]
-    nl = [v for n_, v, _ in assignments(wl.node) if n_ == "new_layers"]
-    ok = bool(nl) and isinstance(nl[0], ast.IfExp) and norm(nl[0].test) == "prepend" and norm(nl[0].body) == "[*layers, self]" and norm(nl[0].orelse) == "[self, *layers]" \
-        and any(norm(r.value) == "LayeredMapping(*new_layers, name=name)" for r in rets)
-    ctx.check(ok, "C19.R2", "with_layers (not in place) stacks the new layers around the mapping ITSELF, so its private writes stay visible", wl.where,
-              ctx.construct(wl, text="non-inplace layering"),
-              f"new_layers = `{norm(nl[0]) if nl else None}`; expected [*layers, self] / [self, *layers]: using self._layers drops the receiver's private write layer")
-    ok = any(isinstance(x, ast.If) and norm(x.test) == "not layers" and isinstance(x.body[0], ast.Return) and norm(x.body[0].value) == "self" for x in wl.node.body)
-    ctx.check(ok, "C19.R2", "with_layers without layers returns the mapping unchanged", wl.where, ctx.construct(wl, text="no layers"), "empty layering must return self")
+              ctx.construct(wl, text="inplace"), "expected `del self.named_layers` when it is cached (\"named_layers\" in self.__dict__)")
+    for prepend, want in ((True, "LayeredMapping(*[*ANY_L, self], name=name)"), (False, "LayeredMapping(*[self, *ANY_L], name=name)")):
+        res = [r for r in sym.eval_under(wouts, {"inplace": False, "prepend": prepend}, kinds=("return",)) if norm(r[1]) != "self"]
+        ok = len(res) == 1 and sym.pm_any([want, want.replace("*[", "").replace("], name", ", name")], res[0][1]) is not None
+        ctx.check(ok, "C19.R2", f"with_layers (not in place, prepend={prepend}) stacks the new layers around the mapping ITSELF, so its private writes stay visible", wl.where,
+                  ctx.construct(wl, text=f"non-inplace layering prepend={prepend}"),
+                  f"returns {[norm(r[1])[:120] for r in res]}; expected {want.replace('ANY_L', 'layers')}: using self._layers drops the receiver's private write layer")
+    empty = [o for o in wouts if o.kind == "return" and o.value is not None and norm(o.value) == "self" and not o.effects
+             and len(o.conds) == 1 and o.conds[0][1] is False]
+    ctx.check(len(empty) == 1, "C19.R2", "with_layers without layers returns the mapping unchanged", wl.where, ctx.construct(wl, text="no layers"),
+              "empty layering must return self (before anything is modified)")
     init = C.methods["__init__"]
     ok = any(norm(s) in ("self._mutations: dict = {}", "self._mutations = {}") for s in init.node.body)
     ctx.check(ok, "C19.R2", "every LayeredMapping owns a fresh private layer", init.where, ctx.construct(init, text="_mutations init"),
@@ -240,48 +275,98 @@ def r2(ctx):
 ORDER = "[self._mutations, *self._layers]"
 
 
+ORDERS = ["[self._mutations, *self._layers]", "(self._mutations, *self._layers)", "itertools.chain([self._mutations], self._layers)",
+          "itertools.chain((self._mutations,), self._layers)"]
+
+
 def r3(ctx, rule="C19.R3"):
     P = ctx.project
     C = P.cls(LM)
     gi, it, ln, gw = (C.methods.get(m) for m in ("__getitem__", "__iter__", "__len__", "get_with_layer_name"))
     ctx.look(4)
+    summ = {}
+    for name, m in (("__getitem__", gi), ("__iter__", it), ("get_with_layer_name", gw)):
+        try:
+            summ[name] = sym.outcomes(m.node)
+        except sym.Unmodelled as e:
+            raise AnalysisError(f"{rule}: {name} cannot be summarised: {e}")
     for name, m in (("__getitem__", gi), ("__iter__", it)):
-        loops = [n for n in walk_no_nested(m.node) if isinstance(n, ast.For) and "self._" in norm(n.iter)]
-        ok = bool(loops) and norm(loops[0].iter) == ORDER
+        heads = [l._sym_head for o in summ[name] for l in o.loops[:1]]
+        ok = bool(heads) and all(sym.pm_any(ORDERS, h) is not None for h in heads)
         ctx.check(ok, rule, f"{name} searches the private layer first, then the layers in order", m.where, ctx.construct(m, text="search order"),
-                  f"iterates `{norm(loops[0].iter) if loops else None}`; expected {ORDER}")
-    lp = [n for n in walk_no_nested(gi.node) if isinstance(n, ast.For)][0]
-    ok = len(lp.body) == 1 and isinstance(lp.body[0], ast.If) and norm(lp.body[0].test) == "key in layer" and norm(lp.body[0].body[0]) == "return layer[key]"
-    ctx.check(ok, rule, "__getitem__: first match wins", gi.where, ctx.construct(gi, text="first match"), "expected `if key in layer: return layer[key]` inside the loop")
-    last = gi.node.body[-1]
-    ctx.check(isinstance(last, ast.Raise) and "KeyError" in norm(last), rule, "__getitem__ raises KeyError for a missing key", gi.where,
-              ctx.construct(gi, text="KeyError"), "missing keys must raise KeyError")
-    t = norm(it.node)
-    ok = "if key not in keys:" in t and "keys.add(key)" in t and "yield key" in t
-    ctx.check(ok, rule, "__iter__ yields each key once (top layer's occurrence)", it.where, ctx.construct(it, text="dedupe"), "deduplicating iteration expected")
-    r = returns_of(ln.node)
-    ok = bool(r) and norm(r[0].value) == "len(set(itertools.chain(self._mutations, *self._layers)))"
-    ctx.check(ok, rule, "__len__ counts the distinct keys of the same layers", ln.where, ctx.construct(ln, text="len"), f"len = `{norm(r[0].value) if r else None}`")
+                  f"iterates `{norm(heads[0]) if heads else None}`; expected {ORDERS[0]}")
+    key = param_names(gi.node)[1]
+    hits = [o for o in summ["__getitem__"] if o.loops and o.kind == "return"]
+    ok = len(hits) == 1 and len(hits[0].conds) == 1 and hits[0].conds[0][1] is True
+    if ok:
+        L = norm(hits[0].loops[0]._sym_orig.target)
+        ok = norm(hits[0].conds[0][0]) == f"{key} in {L}" and norm(hits[0].value) == f"{L}[{key}]"
+    ctx.check(ok, rule, "__getitem__: first match wins", gi.where, ctx.construct(gi, text="first match"), f"expected `if {key} in layer: return layer[{key}]` inside the loop; found {hits}")
+    tail = [o for o in summ["__getitem__"] if not o.loops]
+    ctx.check(bool(tail) and all(o.kind == "raise" and "KeyError" in norm(o.value) for o in tail), rule, "__getitem__ raises KeyError for a missing key", gi.where,
+              ctx.construct(gi, text="KeyError"), f"missing keys must raise KeyError; found {tail}")
+    ys = [o for o in summ["__iter__"] if o.kind == "yield"]
+    ok = len(ys) == 1 and len(ys[0].loops) == 2 and len(ys[0].conds) == 1 and ys[0].conds[0][1] is False
+    if ok:
+        o = ys[0]
+        outer, inner = o.loops[0]._sym_orig, o.loops[1]._sym_orig
+        k = norm(inner.target)
+        b = sym.pm(f"{k} in VAR_seen", o.conds[0][0])
+        ok = b is not None and norm(inner.iter) == norm(outer.target) and norm(o.value) == k and \
+            any(sym.pm(f"{b['VAR_seen']}.add({k})", e) is not None for e in o.effects)
+    ctx.check(ok, rule, "__iter__ yields each key once (top layer's occurrence)", it.where, ctx.construct(it, text="dedupe"),
+              f"deduplicating iteration expected (yield a key only if unseen, and record it as seen); found {ys}")
+    c = _single_return(ln)
+    LENS = ["len(set(itertools.chain(self._mutations, *self._layers)))", "len(set().union(self._mutations, *self._layers))",
+            "len(set(self._mutations).union(*self._layers))", "len({*self._mutations, *itertools.chain(*self._layers)})", "len(set(self))",
+            "len({VAR_k for VAR_k in self})", "sum((1 for VAR_k in self))", "len(set(itertools.chain.from_iterable([self._mutations, *self._layers])))",
+            "len(list(self))", "len(tuple(self))"]
+    ctx.check(sym.pm_any(LENS, c) is not None, rule, "__len__ counts the distinct keys of the same layers", ln.where, ctx.construct(ln, text="len"),
+              f"len = `{norm(c) if c is not None else None}`")
     # get_with_layer_name
-    body = [s for s in gw.node.body if not (isinstance(s, ast.Expr) and isinstance(s.value, ast.Constant))]
-    first_if = [s for s in body if isinstance(s, ast.If)]
-    loops = [s for s in body if isinstance(s, ast.For)]
-    ok = bool(first_if) and norm(first_if[0].test) == "key in self._mutations" and norm(first_if[0].body[0]) == "return (self._mutations[key], name)" \
-        and bool(loops) and first_if[0].lineno < loops[0].lineno and norm(loops[0].iter) == "self._layers"
-    ctx.check(ok, rule, "get_with_layer_name searches in the same order as __getitem__", gw.where, ctx.construct(gw, text="search order"),
-              "expected the private layer first, then `for layer in self._layers`")
-    if loops:
-        lp = loops[0]
-        inner = lp.body[0] if lp.body and isinstance(lp.body[0], ast.If) else None
-        ok = inner is not None and norm(inner.test) == "key in layer" and all(isinstance(s, (ast.If, ast.Return)) for s in inner.body) \
-            and isinstance(inner.body[-1], ast.Return) and norm(inner.body[-1].value) == "(layer[key], name)"
-        nested = [s for s in (inner.body if inner is not None else []) if isinstance(s, ast.If)]
-        ok_n = len(nested) == 1 and norm(nested[0].test) == "isinstance(layer, LayeredMapping)" and "return layer.get_with_layer_name(key" in norm(nested[0].body[0])
-        ctx.check(ok and ok_n, rule, "the value and the reported layer name come from the same search step (first match wins)", gw.module.line(lp),
-                  ctx.construct(gw, text="value+name same step"), "value and layer name must be returned together from the first layer containing the key")
-    last = body[-1]
-    ctx.check(isinstance(last, ast.Return) and norm(last.value) == "(default, None)", rule, "a missing key yields (default, None)", gw.where,
-              ctx.construct(gw, text="default"), f"last statement `{stmt_text(last)}`")
+    gp = param_names(gw.node)
+    k, dflt = gp[1], gp[2]
+    go = summ["get_with_layer_name"]
+    first = [o for o in go if not o.loops and o.kind == "return" and any(pol and norm(c) == f"{k} in self._mutations" for c, pol in o.conds)]
+
+    def side(o):
+        """the branch conditions that do not concern the search itself (e.g. how the layer name is spelt)"""
+        return frozenset((norm(c), pol) for c, pol in o.conds if k not in {n.id for n in ast.walk(c) if isinstance(n, ast.Name)})
+
+    names = {}
+    ok1 = bool(first)
+    for o in first:
+        b = sym.pm(f"(self._mutations[{k}], ANY_name)", o.value)
+        if b is None:
+            ok1 = False
+        else:
+            names[side(o)] = b["ANY_name"]
+    inl = [o for o in go if o.loops]
+    heads = {norm(l._sym_head) for o in inl for l in o.loops[:1]}
+    only_after = all(any(not pol and norm(c) == f"{k} in self._mutations" for c, pol in o.conds) for o in inl)
+    ctx.check(ok1 and heads == {"self._layers"} and only_after, rule, "get_with_layer_name searches in the same order as __getitem__", gw.where,
+              ctx.construct(gw, text="search order"), f"expected the private layer first, then `for layer in self._layers`; loop heads {sorted(heads)}")
+    rets = [o for o in inl if o.kind == "return"]
+    ok = bool(rets) and ok1
+    plain = nested = 0
+    for o in rets:
+        L = norm(o.loops[0]._sym_orig.target)
+        has = any(pol and norm(c) == f"{k} in {L}" for c, pol in o.conds)
+        isl = [pol for c, pol in o.conds if norm(c) == f"isinstance({L}, LayeredMapping)"]
+        if not has:
+            ok = False
+        elif isl == [True]:
+            nested += 1
+            ok = ok and norm(o.value).startswith(f"{L}.get_with_layer_name({k}")
+        else:
+            plain += 1
+            nm = [v for sd, v in names.items() if sd <= side(o) or side(o) <= sd]
+            ok = ok and bool(nm) and any(sym.pm(f"({L}[{k}], ANY_name)", o.value, {"ANY_name": v}) is not None for v in nm)
+    ctx.check(ok and plain >= 1 and nested >= 1, rule, "the value and the reported layer name come from the same search step (first match wins)", gw.where,
+              ctx.construct(gw, text="value+name same step"), f"value and layer name must be returned together from the first layer containing the key; found {rets}")
+    last = [o for o in go if not o.loops and o not in first]
+    ctx.check(bool(last) and all(o.kind == "return" and norm(o.value) == f"({dflt}, None)" for o in last), rule, "a missing key yields (default, None)", gw.where,
+              ctx.construct(gw, text="default"), f"found {last}")
 
 
 def r4(ctx, rule="C19.R4"):
@@ -291,11 +376,14 @@ def r4(ctx, rule="C19.R4"):
     SF = P.cls("formulaic.formula.SimpleFormula")
     for name in ("insert", "__setitem__"):
         m = SF.methods[name]
-        body = [s for s in m.node.body if not (isinstance(s, ast.Expr) and isinstance(s.value, ast.Constant))]
         ctx.look()
-        ok = len(body) >= 2 and "self.__validate_terms" in norm(body[0])
+        try:
+            mo = sym.outcomes(m.node)
+        except sym.Unmodelled:
+            mo = []
+        ok = bool(mo) and all(o.effects and "__validate_terms" in norm(o.effects[0]) and len(o.effects) >= 2 for o in mo if o.kind in ("fall", "return"))
         ctx.check(ok, rule, f"SimpleFormula.{name} validates the value before storing it", m.where, ctx.construct(m, text="validate first"),
-                  f"first statement is `{stmt_text(body[0]) if body else None}`")
+                  f"first effect is `{norm(mo[0].effects[0])[:80] if mo and mo[0].effects else None}`")
     init = SF.methods["__init__"]
     t = [norm(s) for s in init.node.body]
     ok = "self.__validate_terms(self.__terms)" in t and "self._reorder()" in t and t.index("self.__validate_terms(self.__terms)") < t.index("self._reorder()")
@@ -308,7 +396,11 @@ def r4(ctx, rule="C19.R4"):
         o = kwarg(c, "_ordering")
         ctx.check(o is not None and norm(o) == "self.ordering", rule, "a slice of a formula keeps the formula's ordering method", gi.module.line(c), ctx.construct(gi, text="slice ordering"),
                   f"slice is built as `{norm(c)[:80]}`: without `_ordering=self.ordering` a slice of an unordered formula is re-sorted by degree and a 'sort' formula stops sorting")
-    ok = "return self.__terms[key]" in norm(gi.node)
+    try:
+        gouts = sym.eval_under(sym.outcomes(gi.node), {"isinstance(key, slice)": False}, kinds=("return",))
+    except sym.Unmodelled:
+        gouts = []
+    ok = len(gouts) == 1 and norm(gouts[0][1]) == "self.__terms[key]"
     ctx.check(ok, rule, "integer indexing returns the stored term", gi.where, ctx.construct(gi, text="index"), "__getitem__ changed shape")
     d = SF.methods["__delitem__"]
     body = [norm(s) for s in d.node.body]
